@@ -1164,6 +1164,123 @@ theorem C06_import_graph_walks_terminate (w : String) (mf : Bool) (hm : (w, mf) 
   have : mf = true := List.all_eq_true.mp hall (w, mf) hm
   rw [this]; exact visit_terminates u h hc marked e he
 
+/-! ## item-wise interface resolution as a whole -/
+
+structure ImportClosed (R S : List Nat) (g : ImportGraph) : Prop where
+  uses : ∀ s, s ∈ S → ∀ y, y ∈ g.uses s → y ∈ S
+  renames : ∀ s, s ∈ S → ∀ r, r ∈ g.renames s → r ∈ R
+  source : ∀ r, r ∈ R → g.source r ∈ S
+
+abbrev Sub (a b : List Nat) : Prop := ∀ x, x ∈ a → x ∈ b
+
+theorem renameFindList_ok (R S : List Nat) (g : ImportGraph) (fuel : Nat) (path : List Nat) (bound : Nat)
+    (IH : ∀ seen c, c ∈ S → unmarked R seen * (S.length + 2) + bound ≤ fuel →
+      ∃ m, renameFind true true g fuel seen path c = some m ∧ Sub seen m) :
+    ∀ (cs seen : List Nat), (∀ c, c ∈ cs → c ∈ S) → unmarked R seen * (S.length + 2) + bound ≤ fuel →
+      ∃ m, renameFindList true true g fuel seen path cs = some m ∧ Sub seen m := by
+  intro cs
+  induction cs with
+  | nil => intro seen _ _; exact ⟨seen, by simp [renameFindList], fun x hx => hx⟩
+  | cons c rest ih =>
+    intro seen hcs hf
+    obtain ⟨m1, h1, s1⟩ := IH seen c (hcs c List.mem_cons_self) hf
+    have hmono := unmarked_mono R seen m1 s1
+    have hf1 : unmarked R m1 * (S.length + 2) + bound ≤ fuel :=
+      Nat.le_trans (Nat.add_le_add_right (Nat.mul_le_mul_right _ hmono) _) hf
+    obtain ⟨m2, h2, s2⟩ := ih m1 (fun y hy => hcs y (List.mem_cons_of_mem _ hy)) hf1
+    exact ⟨m2, by simp [renameFindList, h1, h2], fun x hx => s2 x (s1 x hx)⟩
+
+theorem renameResolveList_ok (R S : List Nat) (g : ImportGraph) (fuel : Nat)
+    (IH : ∀ seen r, r ∈ R → unmarked R seen * (S.length + 2) + 1 ≤ fuel →
+      ∃ m, renameResolve true true g fuel seen r = some m ∧ Sub seen m) :
+    ∀ (rs seen : List Nat), (∀ r, r ∈ rs → r ∈ R) → unmarked R seen * (S.length + 2) + 1 ≤ fuel →
+      ∃ m, renameResolveList true true g fuel seen rs = some m ∧ Sub seen m := by
+  intro rs
+  induction rs with
+  | nil => intro seen _ _; exact ⟨seen, by simp [renameResolveList], fun x hx => hx⟩
+  | cons r rest ih =>
+    intro seen hrs hf
+    obtain ⟨m1, h1, s1⟩ := IH seen r (hrs r List.mem_cons_self) hf
+    have hmono := unmarked_mono R seen m1 s1
+    have hf1 : unmarked R m1 * (S.length + 2) + 1 ≤ fuel :=
+      Nat.le_trans (Nat.add_le_add_right (Nat.mul_le_mul_right _ hmono) _) hf
+    obtain ⟨m2, h2, s2⟩ := ih m1 (fun y hy => hrs y (List.mem_cons_of_mem _ hy)) hf1
+    exact ⟨m2, by simp [renameResolveList, h1, h2], fun x hx => s2 x (s1 x hx)⟩
+
+theorem rename_ok (R S : List Nat) (g : ImportGraph) (hc : ImportClosed R S g) :
+    ∀ (fuel : Nat),
+      (∀ seen r, r ∈ R → unmarked R seen * (S.length + 2) + 1 ≤ fuel →
+        ∃ m, renameResolve true true g fuel seen r = some m ∧ Sub seen m) ∧
+      (∀ seen path s, s ∈ S → unmarked R seen * (S.length + 2) + (unmarked S path + 2) ≤ fuel →
+        ∃ m, renameFind true true g fuel seen path s = some m ∧ Sub seen m) := by
+  intro fuel
+  induction fuel with
+  | zero =>
+    constructor
+    · intro seen r _ hf; omega
+    · intro seen path s _ hf; omega
+  | succ fuel IH =>
+    obtain ⟨IHr, IHf⟩ := IH
+    constructor
+    · intro seen r hr hf
+      by_cases hs : r ∈ seen
+      · exact ⟨seen, by simp [renameResolve, hs], fun x hx => hx⟩
+      · have hlt := unmarked_lt R seen r hr hs
+        have hS : unmarked S [] ≤ S.length := by unfold unmarked; exact List.length_filter_le _ _
+        have hfuel : unmarked R (r :: seen) * (S.length + 2) + (unmarked S [] + 2) ≤ fuel := by
+          have h1 : (unmarked R (r :: seen) + 1) * (S.length + 2) ≤ unmarked R seen * (S.length + 2) :=
+            Nat.mul_le_mul_right _ hlt
+          rw [Nat.add_mul] at h1
+          omega
+        obtain ⟨m, hm, hsub⟩ := IHf (r :: seen) [] (g.source r) (hc.source r hr) hfuel
+        exact ⟨m, by simp [renameResolve, hs, hm], fun x hx => hsub x (List.mem_cons_of_mem _ hx)⟩
+    · intro seen path s hs hf
+      by_cases hp : s ∈ path
+      · exact ⟨seen, by simp [renameFind, hp], fun x hx => hx⟩
+      · have hlt := unmarked_lt S path s hs hp
+        obtain ⟨m1, h1, s1⟩ := renameFindList_ok R S g fuel (s :: path) (unmarked S (s :: path) + 2)
+          (fun seen' c hc' hf' => IHf seen' (s :: path) c hc' hf') (g.uses s) seen (hc.uses s hs) (by omega)
+        have hmono := unmarked_mono R seen m1 s1
+        have hf1 : unmarked R m1 * (S.length + 2) + 1 ≤ fuel := by
+          have := Nat.mul_le_mul_right (S.length + 2) hmono
+          omega
+        obtain ⟨m2, h2, s2⟩ := renameResolveList_ok R S g fuel IHr (g.renames s) m1 (hc.renames s hs) hf1
+        exact ⟨m2, by simp [renameFind, hp, h1, h2], fun x hx => s2 x (s1 x hx)⟩
+
+theorem rename_resolve_terminates (R S : List Nat) (g : ImportGraph) (hc : ImportClosed R S g) (seen : List Nat) (r : Nat) (hr : r ∈ R) :
+    ∃ m, renameResolve true true g (R.length * (S.length + 2) + 1) seen r = some m := by
+  have hu : unmarked R seen ≤ R.length := by unfold unmarked; exact List.length_filter_le _ _
+  obtain ⟨m, hm, _⟩ := (rename_ok R S g hc (R.length * (S.length + 2) + 1)).1 seen r hr
+    (by have := Nat.mul_le_mul_right (S.length + 2) hu; omega)
+  exact ⟨m, hm⟩
+
+/-- without the in-progress mark: a rename that imports from a schema holding the same rename never resolves -/
+theorem rename_unmarked_loop (fuel : Nat) :
+    renameResolve false true ⟨fun _ => [], fun _ => [0], fun _ => 0⟩ fuel [] 0 = none ∧
+    renameFind false true ⟨fun _ => [], fun _ => [0], fun _ => 0⟩ fuel [] [] 0 = none := by
+  induction fuel with
+  | zero => simp [renameResolve, renameFind]
+  | succ n ih => simp [renameResolve, renameFind, renameFindList, renameResolveList, ih.1, ih.2]
+
+
+/-- **C06, item-wise interface resolution as a whole**: `RENAMEresolve` and `SCOPE_find_for_rename` call each other (a rename
+is resolved by a search, the search resolves the renames it meets).  For every finite set of schemas and renames, every
+graph of whole-schema USE clauses, every placement of renames and every source schema — rename cycles, USE cycles and
+both at once — the resolution of any rename returns: fuel |renames| · (|schemas| + 2) + 1 is never used up (measure:
+renames not yet seen, then schemas not on the call chain).  Regenerated: `renameResolveMarkFirst` (the in-progress mark is set
+before the search and only cleared after `failed` or the result is set) and `renameSearchPathGuard`. -/
+theorem C06_rename_resolution_terminates (R S : List Nat) (g : ImportGraph) (hc : ImportClosed R S g)
+    (seen : List Nat) (r : Nat) (hr : r ∈ R) :
+    ∃ m, renameResolve renameResolveMarkFirst renameSearchPathGuard g (R.length * (S.length + 2) + 1) seen r = some m := by
+  have h1 : renameResolveMarkFirst = true := by decide
+  have h2 : renameSearchPathGuard = true := by decide
+  rw [h1, h2]; exact rename_resolve_terminates R S g hc seen r hr
+
+/-- without the in-progress mark a rename that imports from a schema holding the same rename never resolves, whatever the fuel -/
+theorem C06_rename_resolution_unmarked_witness (fuel : Nat) :
+    renameResolve false true ⟨fun _ => [], fun _ => [0], fun _ => 0⟩ fuel [] 0 = none :=
+  (rename_unmarked_loop fuel).1
+
 /-! ## nesting depth -/
 
 theorem Tree.height_pos (t : Tree) : 1 ≤ t.height := by
@@ -1585,8 +1702,8 @@ theorem C06_every_exit_site_prints :
 
 /-- the configurations found before the fixes: the success path did not flush (warnings of a clean run lost with -B) -/
 theorem C06_success_without_flush_witness :
-    let c := { exitDiscCfg with succActs := [] }
-    ∃ s, runMain c true (fun _ => true) [⟨4, true, false⟩] [] [] = (s, some (.exited c.succStatus)) ∧ s.pending = 1 ∧ s.printed = 0 := by
+    let c := { exitDiscCfg with succActs := [], sevs := [0, 0], subordinate := 0 }
+    ∃ s, runMain c true (fun _ => true) [⟨1, true, false⟩] [] [] = (s, some (.exited c.succStatus)) ∧ s.pending = 1 ∧ s.printed = 0 := by
   refine ⟨_, rfl, ?_, ?_⟩ <;> decide
 
 end StepModel.C06
